@@ -697,65 +697,76 @@ def _try_continuation(b, cont, dest_local):
 
 def thread_materialised_bools(doc):
     """`if matches!(x, P) { A } else { B }` lowers to: arm P: c = true; goto J   otherwise: c = false; goto J   J: switch c -> A | B.
-    A block that ends by assigning a boolean *constant* to c and jumping to a block that only tests c (possibly after negating or copying
-    it: `let cached = !matches!(..)`) is sent straight to the branch that test would take: the detour through J carries no information and
-    creates the infeasible paths "matched, then else".  The assignments stay (those of J are repeated with their now constant values);
-    only the jump is retargeted.  Returns the number of jumps threaded."""
+    A block that ends by assigning a *known* value to c — a boolean constant, or an aggregate whose variant is fixed (`Kind::Hit`, built by
+    a classification helper) — and then only copies / negates it / takes its discriminant on a straight line up to a test of it is sent
+    straight to the branch that test takes: the detour carries no information and creates the infeasible paths "matched, then else".
+    The statements on the way are repeated in the threaded block; only the jump is retargeted.  Returns the number of jumps threaded."""
     n = 0
     for b in doc['bodies']:
         blocks = b['blocks']
-        for j, J in enumerate(blocks):
-            t = J['term']
-            if t['k'] != 'switch' or t.get('discr_ty') != 'bool':
+        for P in blocks:
+            pt = P['term']
+            if pt['k'] != 'goto' or not isinstance(pt.get('target'), int) or not P['stmts'] or P['cleanup']:
                 continue
-            d = t['discr']
-            if d['k'] not in ('move', 'copy') or d['place']['proj']:
+            st = P['stmts'][-1]
+            if st['k'] != 'assign' or st['place']['proj']:
                 continue
-            disc = d['place']['local']
-            tg = dict((v, x) for v, x in t['targets'])
-            # J may only compute boolean functions (negation, copy) of one flag before it tests the outcome
-            chain = []   # (dest local, 'not' | 'copy', source local)
-            okJ = True
-            for st in J['stmts']:
-                rv = st.get('rv') or {}
-                if st['k'] != 'assign' or st['place']['proj']:
-                    okJ = False
+            rv = st['rv']
+            if rv['k'] == 'use' and rv['op']['k'] == 'const' and isinstance(rv['op'].get('val'), bool):
+                val = ('bool', rv['op']['val'])
+            elif rv['k'] == 'agg' and rv['agg']['k'] == 'adt' and isinstance(rv['agg'].get('variant_idx'), int):
+                val = ('variant', rv['agg']['variant_idx'])
+            else:
+                continue
+            env = {st['place']['local']: val}
+            extra = []
+            cur = pt['target']
+            dest = None
+            for _hop in range(4):
+                J = blocks[cur]
+                if J is P or J['cleanup']:
                     break
-                if rv.get('k') == 'unop' and rv.get('op') == 'Not' and rv['x']['k'] in ('move', 'copy') and not rv['x']['place']['proj']:
-                    chain.append((st['place']['local'], 'not', rv['x']['place']['local'], st))
-                elif rv.get('k') == 'use' and rv['op']['k'] in ('move', 'copy') and not rv['op']['place']['proj']:
-                    chain.append((st['place']['local'], 'copy', rv['op']['place']['local'], st))
-                else:
-                    okJ = False
-                    break
-            if not okJ:
-                continue
-            for P in blocks:
-                pt = P['term']
-                if P is J or pt['k'] != 'goto' or pt.get('target') != j or not P['stmts']:
-                    continue
-                st = P['stmts'][-1]
-                if st['k'] != 'assign' or st['place']['proj']:
-                    continue
-                rv = st['rv']
-                if rv['k'] != 'use' or rv['op']['k'] != 'const' or not isinstance(rv['op'].get('val'), bool):
-                    continue
-                env = {st['place']['local']: rv['op']['val']}
-                extra = []
-                good = True
-                for dst, how, src, jst in chain:
-                    if src not in env:
-                        good = False
+                ok = True
+                for jst in J['stmts']:
+                    jr = jst.get('rv') or {}
+                    if jst['k'] != 'assign' or jst['place']['proj']:
+                        ok = False
                         break
-                    env[dst] = (not env[src]) if how == 'not' else env[src]
-                    extra.append(dict(jst, rv={'k': 'use', 'op': {'k': 'const', 'ty': 'bool', 'val': env[dst]}}))
-                if not good or disc not in env:
+                    dst = jst['place']['local']
+                    if jr.get('k') == 'use' and jr['op']['k'] in ('move', 'copy') and not jr['op']['place']['proj'] and jr['op']['place']['local'] in env:
+                        env[dst] = env[jr['op']['place']['local']]
+                    elif jr.get('k') == 'unop' and jr.get('op') == 'Not' and jr['x']['k'] in ('move', 'copy') and not jr['x']['place']['proj'] \
+                            and env.get(jr['x']['place']['local'], ('?',))[0] == 'bool':
+                        env[dst] = ('bool', not env[jr['x']['place']['local']][1])
+                    elif jr.get('k') == 'discr' and not jr['place']['proj'] and env.get(jr['place']['local'], ('?',))[0] == 'variant':
+                        # the discriminant *value* of the variant, as listed by the driver
+                        vidx = env[jr['place']['local']][1]
+                        vals = [x[0] for x in jr.get('variants', [])]
+                        if vidx >= len(vals):
+                            ok = False
+                            break
+                        env[dst] = ('int', vals[vidx])
+                    else:
+                        ok = False
+                        break
+                    extra.append(jst)
+                if not ok:
+                    break
+                t = J['term']
+                if t['k'] == 'goto' and isinstance(t.get('target'), int):
+                    cur = t['target']
                     continue
-                dest = tg.get(1 if env[disc] else 0, t['otherwise'])
-                if isinstance(dest, int):
-                    P['stmts'] = P['stmts'] + extra
-                    P['term'] = dict(pt, target=dest)
-                    n += 1
+                if t['k'] == 'switch' and t['discr']['k'] in ('move', 'copy') and not t['discr']['place']['proj'] and t['discr']['place']['local'] in env:
+                    v = env[t['discr']['place']['local']]
+                    key = (1 if v[1] else 0) if v[0] == 'bool' else (v[1] if v[0] == 'int' else None)
+                    if key is not None:
+                        tg = dict((a, x) for a, x in t['targets'])
+                        dest = tg.get(key, t['otherwise'])
+                break
+            if isinstance(dest, int):
+                P['stmts'] = P['stmts'] + extra
+                P['term'] = dict(pt, target=dest)
+                n += 1
     return n
 
 
@@ -959,6 +970,7 @@ class Facts:
         self.renamed = apply_renames(doc, _load_inventory())
         self.inlined = apply_inlining(doc, _load_inventory())
         self.devirtualized = devirtualize_fn_values(doc)
+        self.threaded_bools += thread_materialised_bools(doc)
         from .desugar import unroll_literal_loops, inline_closure_calls_again
         self.desugared += inline_closure_calls_again(doc)
         self.unrolled = unroll_literal_loops(doc)
@@ -2070,6 +2082,32 @@ def literals(body, R, bb):
                 out.append(lit + (sb,))
             derive(lit)
     return out
+
+
+def built_under(body, R, lit):
+    """A variant test of a value that was built as one of several aggregates (a private classification enum computed by a helper:
+    `match Kind::of(&state) { Kind::Hit => .. }`): the guard literals under which the tested variant(s) were built, or None.
+    With several builders of the tested variants the literals common to all of them are returned."""
+    e = lit[1]
+    if lit[0] != 'is' or not isinstance(e, tuple) or e[:1] != ('phi',) or len(e) < 3:
+        return None
+    if not all(a[0] == 'agg' and isinstance(a[1], tuple) for a in e[2]):
+        return None
+    wanted = [a for a in e[2] if a[1][2] in lit[2]]
+    if not wanted or len(wanted) == len(e[2]):
+        return None
+    hits = []
+    for (dbb, didx) in body.defs().get(e[1], []):
+        if didx == 'term':
+            continue
+        d = R.def_expr(dbb, didx)
+        if any(x == w for x in walk(d) for w in wanted):
+            hits.append(dbb)
+    if not hits:
+        return None
+    sets = [[tuple(l[:3]) if l[0] == 'is' else tuple(l[:2]) for l in literals(body, R, h)] for h in hits]
+    common = [l for l in sets[0] if all(l in s_ for s_ in sets[1:])]
+    return common
 
 
 _COMP = {'Lt': 'Ge', 'Ge': 'Lt', 'Le': 'Gt', 'Gt': 'Le', 'Eq': 'Ne', 'Ne': 'Eq'}
